@@ -16,7 +16,7 @@ from vp.farm import Case, fp_of
 PROP = "C02"
 LEVEL = "exploration"
 RULE = (
-    "random histories (length <= 6 quick / 10 thorough) over 52 public transformations from corpus start models "
+    "random histories (length <= 6) over 52 public transformations from corpus start models "
     "(pheno iv/oral/zero-order/2-compartment) and generated ADVAN1-13 start models; every successful step is judged; "
     "a case is distinct by (start model, sequence of applied steps) and non-trivial when >= 2 steps succeeded and "
     "were judged by the code-vs-model monitor"
@@ -30,13 +30,19 @@ ASSUMPTIONS = [
     "compartments aligned by name, unmatched names by any permutation that makes field, doses, F and Y agree",
     "steps that raise are skipped here (totality is judged by C08)",
 ]
-MIN_NONTRIVIAL = {"quick": 120, "thorough": 1500}
+MIN_NONTRIVIAL = {"quick": 120, "thorough": 1800}
 REQUIRED_MONITORS = ["params", "field", "error_vars", "reread_params", "dataset_equal"]
 BATCH_TIMEOUT = {"quick": 2400, "thorough": 6 * 3600}
 
 
+QUICK_N = 400
+THOROUGH_BLOCKS = 15
+
+
 def n_cases(tier):
-    return 400 if tier == "quick" else 6000
+    # thorough = the quick cases of 15 seeds (the given seed and the blocks 0..14 other than it): the same generator at
+    # the same depth per case, fifteen times the breadth
+    return QUICK_N if tier == "quick" else QUICK_N * THOROUGH_BLOCKS
 
 
 def setup(tier):
@@ -380,7 +386,7 @@ def symptom(what):
 
 
 def start_class(sname):
-    return sname  # corpus model name or gen:<ADVAN>:<TRANS>
+    return "gen" if sname.startswith("gen:") else "corpus"  # generated control stream / packaged pheno variant
 
 
 def reduce_history(A, start_model, hist, seeds, jseed, K, wd, want, c):
@@ -442,8 +448,13 @@ def run_case(rng, idx, tier):
     from vp import denote, histories
 
     c = Case()
-    K = 4 if tier == "quick" else 8
-    maxlen = 6 if tier == "quick" else 10
+    K = 4
+    maxlen = 6
+    if tier != "quick":
+        base = int(os.environ.get("VERIF_SEED", "0") or 0)
+        blocks = [base] + [b for b in range(THOROUGH_BLOCKS) if b != base][: THOROUGH_BLOCKS - 1]
+        sub, idx0 = blocks[idx // QUICK_N], idx % QUICK_N
+        rng = random.Random(f"{PROP}:{sub}:{idx0}")  # exactly the generator of quick case idx0 under seed `sub`
     wd = Path(os.environ["VERIF_SCRATCH"]) / f"c{idx}"
     A = histories.alphabet()
     try:
